@@ -29,10 +29,10 @@ class PD:
             raise Unsupported('DataFrame from symbolic row list')
         if isinstance(data, list) and all(isinstance(r, SRow) for r in data) and columns is None:
             if not data:
-                return SFrame({}, 0)
+                return SFrame({}, 0, 'range')
             cols = list(data[0].fields)
             rows = data
-            return SFrame({c: V.tensor_from_nested([r.fields[c] for r in rows]) for c in cols}, len(rows))
+            return SFrame({c: V.tensor_from_nested([r.fields[c] for r in rows]) for c in cols}, len(rows), 'range')
         t = as_tensor(data)
         if t.ndim != 2:
             raise Unsupported('DataFrame data rank')
@@ -46,7 +46,7 @@ class PD:
         cols = {}
         for c, nm in enumerate(columns):
             cols[nm] = STensor((t.shape[0],), (lambda cc: (lambda i: tf(i, cc)))(c), t.dtype)
-        return SFrame(cols, t.shape[0])
+        return SFrame(cols, t.shape[0], 'range')  # a frame built from an array gets RangeIndex(0..n-1)
 
     def frame_index(self, interp, fr, idx, line):
         from .interp import _Raise
@@ -55,7 +55,9 @@ class PD:
                 interp.ctx.oblige(f'{interp.cur_func}.column[{idx}]@{line}', False, kind='raises', line=line)
                 raise _Raise('KeyError', line=line)
             c = fr.columns[idx]
-            return STensor(c.shape, c.fn, c.dtype)
+            out = STensor(c.shape, c.fn, c.dtype)
+            out.index_of = fr.index_token  # a Series: carries the frame's index
+            return out
         if isinstance(idx, list) and all(isinstance(x, str) for x in idx):
             for x in idx:
                 if x not in fr.columns:
@@ -91,20 +93,20 @@ class PD:
 
     def frame_method(self, interp, fr, meth, args, kwargs, line):
         if meth == 'copy':
-            out = SFrame({k: STensor(c.shape, c.fn, c.dtype) for k, c in fr.columns.items()}, fr.nrows)
+            out = SFrame({k: STensor(c.shape, c.fn, c.dtype) for k, c in fr.columns.items()}, fr.nrows, fr.index_token)
             for a in ('selection', 'offset'):
                 if hasattr(fr, a):
                     setattr(out, a, getattr(fr, a))
             return out
         if meth == 'rename':
             mp = kwargs.get('columns') or {}
-            return SFrame({mp.get(k, k): c for k, c in fr.columns.items()}, fr.nrows)
+            return SFrame({mp.get(k, k): c for k, c in fr.columns.items()}, fr.nrows, fr.index_token)
         if meth == 'reset_index':
             cols = {'index': STensor((fr.nrows,), lambda i: i, 'int')}
             if kwargs.get('drop'):
                 cols = {}
             cols.update(fr.columns)
-            out = SFrame(cols, fr.nrows)
+            out = SFrame(cols, fr.nrows, 'range')
             for a in ('selection', 'from_rows'):
                 if hasattr(fr, a):
                     setattr(out, a, getattr(fr, a))
